@@ -13,9 +13,23 @@ def resStr : VerifyRes → String
 
 def isLowerHexStr (s : String) : Bool := s.toList.all fun c => ('0' ≤ c && c ≤ '9') || ('a' ≤ c && c ≤ 'f')
 
-/-- the property's notion of authenticity, computed from the spec serialization and the Lean SHA-256 -/
+/-- the property's notion of authenticity, computed from the spec serialization, the Lean SHA-256 and the Lean
+    BIP-340 (`o` is `sigOracleOf e`: nothing is taken from the implementation's library) -/
 def authenticSpec (o : SigOracle) (e : Event) : Bool :=
   e.id == Sha256.hexHash (String.ofList (SerSpec.nip01Canonical e)) && o.pubkeyParses && o.sigParses && o.verifies
+
+def oracleStr (o : SigOracle) : String := s!"pubkeyParses={o.pubkeyParses} sigParses={o.sigParses} verifies={o.verifies}"
+
+def oracleBy (f : List Nat → List Nat → List Nat → Bip340.Verdict) (e : Event) : SigOracle :=
+  match hexDecode e.pubkey.toList, hexDecode e.id.toList with
+  | some pk, some idBin =>
+    let v := f pk idBin ((hexDecode e.sig.toList).getD [])
+    { pubkeyParses := v.pubkeyParses, sigParses := v.sigParses, verifies := v.verifies }
+  | _, _ => { pubkeyParses := false, sigParses := false, verifies := false }
+
+/-- the BIP itself (strict: `s ≥ n` fails), fast and reference versions -/
+def bipOracleOf := oracleBy Bip340.verifyFast
+def refOracleOf := oracleBy Bip340.verifyRef
 
 def step (_ : Unit) (j : Json) : Except String (Unit × Drv.Out) := do
   let op ← strF j "op"
@@ -43,14 +57,29 @@ def step (_ : Unit) (j : Json) : Except String (Unit × Drv.Out) := do
     let mut o : Drv.Out := { nontrivial := true }
     o := o.tag s!"verify.{impl}"
     o := o.tag s!"tamper.{tamper}"
-    let model := resStr (verify (Sha256.hexHash (serialize e)) orc e)
+    -- the signature verdict is the Lean BIP-340's; the library's (btcec, asked by the harness on the raw bytes)
+    -- is compared with it whenever the signature check is reached
+    let idOk := e.id == Sha256.hexHash (serialize e)
+    let lib := if idOk then sigOracleOf e else orc      -- the model of the library (btcec: s taken mod n)
+    let bip := if idOk then bipOracleOf e else orc      -- the BIP itself: what the property asks for
+    if idOk then
+      o := o.tag s!"bip340.{if bip.verifies then "valid" else if !bip.pubkeyParses then "pubkey-unparsable" else if !bip.sigParses then "sig-unparsable" else "invalid"}"
+      if lib != bip then o := o.tag "bip340.library-deviates(s>=n)"
+      let hexOk := (hexDecode e.pubkey.toList).isSome && (hexDecode e.sig.toList).isSome
+      if hexOk && lib != orc then
+        o := o.diff s!"BIP-340: btcec says {oracleStr orc}, the Lean model of btcec says {oracleStr lib}: {(eventJ e).compress}"
+      if (e.id.toList.head?.getD '0') == '0' then   -- one in sixteen: the BIP's reference algorithm as well
+        o := o.tag "bip340.reference-crosscheck"
+        let r := refOracleOf e
+        if r != bip then o := o.diff s!"BIP-340: reference algorithm {oracleStr r}, fast algorithm {oracleStr bip}: {(eventJ e).compress}"
+    let model := resStr (verify (Sha256.hexHash (serialize e)) lib e)
     if model != impl then o := o.diff s!"Verify({(eventJ e).compress}): impl={impl} model={model}"
     -- property monitors (ids written in lower-case hex, as the gate requires)
     if isLowerHexStr e.id && isLowerHexStr e.pubkey && isLowerHexStr e.sig then
-      let want := authenticSpec orc e
+      let want := authenticSpec bip e
       if (impl == "true") != want then
         o := o.mon "authentic" (if want then "authentic-rejected" else "inauthentic-accepted")
-          s!"event reported {impl}, but id = sha256(canonical) is {e.id == Sha256.hexHash (String.ofList (SerSpec.nip01Canonical e))} and the signature check says {orc.verifies}: {(eventJ e).compress}"
+          s!"event reported {impl}, but id = sha256(canonical) is {e.id == Sha256.hexHash (String.ofList (SerSpec.nip01Canonical e))} and BIP-340 says {bip.verifies}: {(eventJ e).compress}"
       if signed && tamper == "none" && impl != "true" then
         o := o.mon "authentic" "signed-rejected" s!"correctly signed event is not reported authentic: {(eventJ e).compress}"
       if tamper != "none" && impl == "true" then
